@@ -70,6 +70,21 @@ def cases(tier, seed):
                             if init != 'none' and sd > 0:
                                 continue
                             yield {'fn': fn, 'M': M, 'N': N, 'ra': ra, 'rx': rx, 'fam': 'gauss', 'dt': 'f64', 'eps': eps, 'seed': sd, 'init': init}
+    # sweep budget (nswp) as an environment answer: wherever ONE sweep is mathematically enough the bound must still hold with
+    # nswp = 1, 2, 3 - order-2 operands (the single supercore is the whole result) with any guess, and any order when the
+    # guess already is the exact product (its interfaces contain the solution's, so every local projection is exact)
+    for M, N in _structs(tier):
+        d = len(N)
+        if d < 2 or d > 4:
+            continue
+        for fn in ('fast_matvec', 'dmrg_hadamard'):
+            for nswp in (1, 2, 3):
+                for init in (('none', 'rank1', 'zero', 'exact', 'exact_round') if d == 2 else ('exact', 'exact_round')):
+                    for dt in ('f64', 'c128'):
+                        for eps in (1e-8, 1e-4):
+                            if d > 2 and (dt == 'c128' or eps == 1e-4) and tier == 'quick':
+                                continue
+                            yield {'fn': fn, 'M': M, 'N': N, 'ra': 2, 'rx': 3, 'fam': 'gauss', 'dt': dt, 'eps': eps, 'seed': 0, 'init': init, 'nswp': nswp}
     for M, N in _structs(tier):
         d = len(N)
         for fn in ('fast_matvec', 'dmrg_hadamard', 'amen_mv', 'amen_mm'):
@@ -124,6 +139,12 @@ def _init_guess(kind, shape_struct, dt):
     return build(st, 'init', 0)[0]
 
 
+def _exact_guess(kind, prod):
+    """the exact product (library algebra, validated by C03/C04) as the user-supplied guess, unrounded or rounded to 1e-13"""
+    z = prod()
+    return z.round(1e-13) if kind == 'exact_round' else z
+
+
 def run_case(c):
     fn, M, N, dt, eps = c['fn'], c['M'], c['N'], c['dt'], c['eps']
     d = len(N)
@@ -132,7 +153,8 @@ def run_case(c):
     RA = [1] + [c['ra']] * (d - 1) + [1]
     Rx = [1] + [c['rx']] * (d - 1) + [1]
     key = 'prod|' + '|'.join('%s=%s' % (k, c[k]) for k in sorted(c))
-    site = fn + ('.order1' if d == 1 else '')
+    site = fn + ('.order1' if d == 1 else '') + ('.nswp%d' % c['nswp'] if 'nswp' in c else '')
+    kw = {'nswp': c['nswp']} if 'nswp' in c else {}
     if fn in ('fast_matvec', 'amen_mv'):
         sA = space.operator_struct(M, N, RA, dt, 'gauss')
         sx = space.tensor_struct(N, Rx, dt, 'gauss')
@@ -140,10 +162,10 @@ def run_case(c):
         x, cx = _mk(sx, 'x', c['fam'])
         exact = torch.tensordot(ref.contract(cA), ref.contract(cx), dims=(list(range(d, 2 * d)), list(range(d))))
         out_struct = {'k': 't', 'N': M}
-        y0 = _init_guess(c['init'], out_struct, dt)
+        y0 = _exact_guess(c['init'], lambda: A @ x) if c['init'].startswith('exact') else _init_guess(c['init'], out_struct, dt)
         ops = [A, x] + ([y0] if y0 is not None else [])
         if fn == 'fast_matvec':
-            f = lambda: A.fast_matvec(x, eps=eps, initial=y0, use_cpp=False)
+            f = lambda: A.fast_matvec(x, eps=eps, initial=y0, use_cpp=False, **kw)
         else:
             f = lambda: torchtt.amen_mv(A, x, eps=eps, x0=y0)
         want_ttm, wM, wN = False, [], M
@@ -154,9 +176,9 @@ def run_case(c):
         x, cx = _mk(sx, 'x', c['fam'])
         y, cy = _mk(sy, 'y', c['fam'])
         exact = ref.contract(cx) * ref.contract(cy)
-        y0 = _init_guess(c['init'], {'k': 't', 'N': N}, dt)
+        y0 = _exact_guess(c['init'], lambda: x * y) if c['init'].startswith('exact') else _init_guess(c['init'], {'k': 't', 'N': N}, dt)
         ops = [x, y] + ([y0] if y0 is not None else [])
-        f = lambda: torchtt.dmrg_hadamard(x, y, z0=y0, eps=eps)
+        f = lambda: torchtt.dmrg_hadamard(x, y, z0=y0, eps=eps, use_cpp=False, **kw)
         want_ttm, wM, wN = False, [], N
         nt = space.nontrivial(sx) or space.nontrivial(sy)
     else:
